@@ -354,6 +354,41 @@ impl<'a> Ix<'a> {
         }
         false
     }
+    /// SIM only: was this call certainly accepted by the mailbox at the instant it started? True when fewer than `capacity`
+    /// earlier operations on the actor could still occupy a slot (so nobody is parked and a slot is free: the send completes in
+    /// its first poll), the actor has finished on_start or not (the mailbox is open from spawn) and has not begun to stop.
+    pub fn certainly_accepted(&self, o: &OpInfo) -> bool {
+        if !self.sim() || !o.kind.is_msg() {
+            return false;
+        }
+        let x = &self.actors[o.actor];
+        if x.c().map(|c| c < o.s).unwrap_or(false) || x.ended_pos().map(|e| e < o.s).unwrap_or(false) {
+            return false;
+        }
+        if x.first_hook_panic().map(|p| p < o.s).unwrap_or(false) || (x.start_exit.map(|s| s.0 < o.s && s.1 != Out::Ok).unwrap_or(false)) {
+            return false;
+        }
+        if matches!(o.ctx, Ctx::Detached(_)) {
+            return false;
+        }
+        let cap = self.meta.caps[o.actor];
+        let mut cnt = 0usize;
+        for op in x.msgs.iter().chain(x.stops.iter()) {
+            let q = &self.ops[op];
+            if q.s >= o.s || q.op == o.op {
+                continue;
+            }
+            let taken = if q.kind == OpKind::Stop { false } else { self.henter.get(&q.uid).map(|h| h[0] < o.s).unwrap_or(false) };
+            let rejected = match &q.end {
+                Some((e, res, _)) if *e < o.s => !res.is_ok() && (q.kind.tell_family() || q.kind == OpKind::Stop || *res == Res::Send),
+                _ => false,
+            };
+            if !taken && !rejected {
+                cnt += 1;
+            }
+        }
+        cnt < cap
+    }
     /// message ops to `a` that are certainly still inside the system at `pos`: started, not closed,
     /// or accepted tells not yet taken
     fn pending_work(&self, a: usize, pos: usize) -> bool {
@@ -482,6 +517,26 @@ fn c01(ix: &Ix, f: &mut Findings) {
             continue; // still running at the end of the history: nothing to conclude yet (C07 reports that)
         }
         let cutoff = ix.first_stop_start(a).unwrap_or(usize::MAX);
+        // asks (also timed-out or cancelled ones) that certainly entered the mailbox before any stop() was requested
+        for op in &x.msgs {
+            let o = &ix.ops[op];
+            if !o.kind.ask_family() || o.s >= cutoff || !ix.certainly_accepted(o) {
+                continue;
+            }
+            f.o("C01.accepted_ask");
+            let ok = match (ix.henter.get(&o.uid), x.c()) {
+                (Some(h), Some(c)) => h.len() == 1 && h[0] < c,
+                (Some(h), None) => h.len() == 1,
+                (None, _) => false,
+            };
+            if !ok {
+                f.v(
+                    "C01.accepted",
+                    Some(a),
+                    format!("{:?} uid {} to actor {a} certainly entered the mailbox when it was sent (a slot was free, nobody was waiting), no stop() had been requested, the actor was neither killed nor crashed, yet it was not handled exactly once before on_stop (call result {:?}, handled at {:?})", o.kind, o.uid, o.res(), ix.henter.get(&o.uid)),
+                );
+            }
+        }
         for op in &x.msgs {
             let o = &ix.ops[op];
             if !o.accepted_tell() {
@@ -563,6 +618,22 @@ fn c02(ix: &Ix, f: &mut Findings) {
                     f.o("C02.after_stop");
                     if ix.henter.contains_key(&q.uid) {
                         f.v("C02.after_stop", Some(a), format!("actor {a}: uid {} was sent after stop() had returned, yet it was handled", q.uid));
+                    }
+                }
+            }
+        }
+        if !ix.exempt(a) && x.ended.is_some() {
+            let cut = ix.first_stop_start(a).unwrap_or(usize::MAX);
+            for p in &ops {
+                if p.kind.ask_family() && p.s < cut && ix.certainly_accepted(p) {
+                    f.o("C02.before_stop");
+                    let ok = match (ix.henter.get(&p.uid), x.c()) {
+                        (Some(h), Some(c)) => h[0] < c,
+                        (Some(_), None) => true,
+                        (None, _) => false,
+                    };
+                    if !ok {
+                        f.v("C02.before_stop", Some(a), format!("actor {a}: {:?} uid {} certainly entered the mailbox before any stop() was called but was not handled before on_stop (it dropped out of the handling sequence)", p.kind, p.uid));
                     }
                 }
             }
@@ -1246,7 +1317,12 @@ fn c09(ix: &Ix, f: &mut Findings) {
         let slack = if ix.sim() { 0 } else { 1 }; // MT: one message may be taken but its handler entry not yet logged
         let mut occ: i64 = 0;
         let mut peak = 0;
-        let end = x.c().or(x.ended_pos()).unwrap_or(ix.log.len());
+        // the boundary can only see the queue while the actor is taking messages: stop at on_stop, a hook panic, a failed start or the end
+        let end = [x.c(), x.ended_pos(), x.first_hook_panic(), x.start_exit.filter(|s| s.1 != Out::Ok).map(|s| s.0)]
+            .into_iter()
+            .flatten()
+            .min()
+            .unwrap_or(ix.log.len());
         let uids: BTreeSet<u64> = x.msgs.iter().map(|o| &ix.ops[o]).filter(|o| o.kind.tell_family()).map(|o| o.uid).collect();
         let mut parked_checked = false;
         for (i, e) in ix.log.iter().enumerate() {
